@@ -1,6 +1,7 @@
 """C20 - Python predicates are interchangeable with compiled ones."""
 from ..eng import EngineModel
 from .. import rules_query as rq
+from .. import rules_extra as rx
 
 
 def check(repo, rep, tier):
@@ -15,3 +16,5 @@ def check(repo, rep, tier):
     rq.rule_values_never_inspected(em, rep, 'C20.U2')
     rq.rule_exception_transparent(em, rep, 'C20.U3')
     rq.rule_argument_order(em, rep, 'C20.U4')
+    rx.rule_derived_tables_follow(em, rep, 'C20.U5')
+    rx.rule_lookups_agree(em, rep, 'C20.U6')
